@@ -33,7 +33,7 @@ INFO = {
                                      "chunk driver, any stream/destination contents, any hard error code",
                   "sts_*": "count 0..3, stream of 0..4 octets (auxiliary-buffer operations: 0..2 and 0..3), STALL 1 per "
                            "driver, scripts of 6 (5) calls per driver, "
-                           "aux buffer size 1..2 with every valid (used, offset) and a non-empty region; driver pairs "
+                           "aux buffer size 1..2 (1..4 for sts_some_aux/sts_atmost_aux) with every valid (used, offset) and a non-empty region; driver pairs "
                            "octet/octet and chunk/chunk",
                   "buffer endpoints": "buffers of 1..3 octets in every valid state, operands 0..4; ByteChunks of 2 "
                                       "chunks x 0..2 unread octets, every `active`, every n 1..4 (enumerated)"},
@@ -100,6 +100,10 @@ def _sts(tier):
         nmax, stall, auxmax = (2, 1, 2) if tier == "quick" else (3, 2, 3)
         if tier != "quick" and op in ("N_AUX", "DRAIN_AUX"):
             stall = 1  # rounds x adaptor loops x retry loops: the most expensive instances
+        if op in ("ATMOST_AUX", "SOME_AUX"):
+            # single-call operations are cheap: a larger auxiliary buffer lets the solver place the designated
+            # region anywhere (offset >= 2 with n <= offset is what the seeded change C17-B needs)
+            auxmax = 4
         if not op.endswith("_AUX"):
             nmax = 3 if tier == "quick" else 6  # no nested retry loops: cheap
         smax = nmax + 1
